@@ -63,14 +63,15 @@ Theorem sharing_race_free : forall (ths : list (list event)) (tr : trace),
   interleaving ths tr -> lock_wf tr -> consistent tr -> ~ race tr.
 Proof. exact Once.sharing_race_free. Qed.
 
-(* 7. Objects do not cross runtimes: toValue rejects an Object of another runtime with a TypeError. *)
-Theorem cross_runtime_object_rejected : forall r rt, rt <> r -> to_value r (GObject rt) = TVTypeError.
-Proof. exact Proofs.cross_runtime_object_rejected. Qed.
+(* 7. Objects do not cross runtimes: toValue rejects an Object of another runtime with a TypeError, and so does the
+      direct path (this / newTarget / arguments of a Callable or Constructor wrapper, Runtime.New; fix ecabeef of
+      finding C16-N2), which agrees with toValue on every value that can be passed directly. *)
+Theorem cross_runtime_object_rejected : forall r rt, rt <> r ->
+  to_value r (GObject rt) = TVTypeError /\ call_arg_impl r (GObject rt) = TVTypeError.
+Proof. exact (fun r rt H => conj (Proofs.cross_runtime_object_rejected r rt H) (Proofs.cross_runtime_object_rejected_call r rt H)). Qed.
 
-(*    ... but a value passed directly as an argument of another runtime's Callable is not converted at all
-      (open finding C16-N2): the implementation model differs from the specification there. *)
-Theorem call_arg_refuted : exists r g, call_arg_impl r g <> to_value r g.
-Proof. exact Proofs.call_arg_refuted. Qed.
+Theorem call_arg_agrees : forall r g, g <> GNilObject -> call_arg_impl r g = to_value r g.
+Proof. exact Proofs.call_arg_agrees. Qed.
 
 (* 8. The race notion is not vacuous: two unsynchronised accesses, one a write, do race. *)
 Theorem unsynchronised_access_races : forall l, race [(0, Wr l); (1, Rd l)].
@@ -101,5 +102,5 @@ Print Assumptions guarded_no_race.
 Print Assumptions imported_race_free.
 Print Assumptions sharing_race_free.
 Print Assumptions cross_runtime_object_rejected.
-Print Assumptions call_arg_refuted.
+Print Assumptions call_arg_agrees.
 Print Assumptions unsynchronised_access_races.
